@@ -4,6 +4,7 @@ import (
 	"fmt"
 
 	"github.com/alttpo/snes/emulator/bus"
+	"github.com/alttpo/snes/emulator/memory"
 
 	"verif/sim"
 )
@@ -19,7 +20,7 @@ func init() { sim.Register(c13{}) }
 
 func (c13) ID() string     { return "C13" }
 func (c13) Level() string  { return "exploration" }
-func (c13) QuickRuns() int { return 12000 }
+func (c13) QuickRuns() int { return 8000 }
 func (c13) Rule() string {
 	return "each evaluation is one history of <=30 bus operations on a fresh bus.Bus with up to 6 simulated devices: Attach over overlapping/nested/adjacent/re-attached/top-of-space ranges (some mis-aligned), EaRead/EaWrite at addresses biased to range edges +-1 and +-16 and to holes, EaDump over ranges of every alignment inside one device, across two devices, across and into holes; checked op by op against an owner[2^20] table; distinct = distinct scenario hash; non-trivial = the history contains a rejected Attach, an access to a hole, an overlapping Attach, or a dump with an unaligned start or crossing a device/hole boundary"
 }
@@ -86,6 +87,12 @@ func (c13) Gen(r *sim.Rand, tier string, run uint64) *sim.Scenario {
 		return region + int64(r.Intn(0x10000))
 	}
 	for len(ops) < n {
+		if len(edges) > 0 && r.Chance(1, 60) {
+			// a copy of the Bus value gets an Attach of its own: two buses, independent routing
+			s, e := pickAligned()
+			ops = append(ops, sim.Op{K: "fork", N: []int64{int64(r.Intn(ndev)), s, e}})
+			continue
+		}
 		switch x := r.Intn(100); {
 		case x < 30 || len(edges) == 0:
 			s, e := pickAligned()
@@ -124,7 +131,18 @@ func (c13) Gen(r *sim.Rand, tier string, run uint64) *sim.Scenario {
 		}
 	}
 	sc.Ops = ops
+	sc.Cfg["realmem"] = int64(r.Intn(4)) // how many of the devices are the library's own memory.RAM / memory.ROM
+	sc.Cfg["region"] = region
 	return sc
+}
+
+// realDev is one of the library's own memories (memory.RAM by value, *memory.ROM) over a
+// backing slice that is deliberately longer than any range it gets attached to.
+type realDev struct {
+	mem    memory.Memory
+	data   []byte
+	offset uint32
+	rom    bool
 }
 
 func (c13) Exec(sc *sim.Scenario, env *sim.Env) *sim.Violation {
@@ -144,8 +162,41 @@ func (c13) Exec(sc *sim.Scenario, env *sim.Env) *sim.Violation {
 		return &sim.Violation{Oracle: "bus_new", Step: 0, Msg: fmt.Sprint(err)}
 	}
 	devs := make([]*SimMem, ndev)
+	reals := make([]*realDev, ndev)
 	for i := range devs {
 		devs[i] = NewSimMem(env, i, sim.Mix(sc.Seed^uint64(i+1)))
+	}
+	nreal := int(sc.C("realmem"))
+	for i := 0; i < nreal && i < ndev; i++ {
+		// window: 128 KiB around the scenario's region (clamped), content = the same fill
+		// pattern the simulated device of that index would serve
+		base := uint32(sc.C("region")) & 0xFF0000
+		if base > 0xFE0000 {
+			base = 0xFE0000
+		}
+		rd := &realDev{data: make([]byte, 0x20000), offset: base, rom: i%2 == 1}
+		for j := range rd.data {
+			rd.data[j] = devs[i].Fill(base + uint32(j))
+		}
+		if rd.rom {
+			rd.mem = memory.NewROM(rd.data, base)
+		} else {
+			rd.mem = memory.NewRAM(rd.data, base)
+		}
+		reals[i] = rd
+	}
+	// inWindow: may device i serve [s,e]? (a real memory only inside its backing slice)
+	inWindow := func(i int, s, e uint32) bool {
+		rd := reals[i]
+		return rd == nil || (s >= rd.offset && uint64(e) < uint64(rd.offset)+uint64(len(rd.data)))
+	}
+	useReal := make([]bool, 1<<20) // per block: is the owner's real memory attached there
+	peek := func(own int8, a uint32) byte {
+		if useReal[a>>4] {
+			rd := reals[own]
+			return rd.data[a-rd.offset]
+		}
+		return devs[own].Peek(a)
 	}
 	owner := make([]int8, 1<<20)
 	for i := range owner {
@@ -179,7 +230,13 @@ func (c13) Exec(sc *sim.Scenario, env *sim.Env) *sim.Violation {
 			}
 			aligned := s&0xF == 0 && (e+1)&0xF == 0
 			var aerr error
-			p, pv := sim.RecoverLib(func() { aerr = b.Attach(devs[dev], fmt.Sprintf("dev%d", dev), s, e) })
+			var m memory.Memory = devs[dev]
+			real := reals[dev] != nil && inWindow(dev, s, e)
+			if real {
+				m = reals[dev].mem
+				st.Probe("library_memory_attached")
+			}
+			p, pv := sim.RecoverLib(func() { aerr = b.Attach(m, fmt.Sprintf("dev%d", dev), s, e) })
 			env.ObsBool(p)
 			env.ObsBool(aerr != nil)
 			if p {
@@ -198,6 +255,7 @@ func (c13) Exec(sc *sim.Scenario, env *sim.Env) *sim.Violation {
 						overlap = true
 					}
 					owner[x] = int8(dev)
+					useReal[x] = real
 				}
 				if overlap {
 					st.Probe("attach_overlap")
@@ -208,6 +266,39 @@ func (c13) Exec(sc *sim.Scenario, env *sim.Env) *sim.Violation {
 				st.Fault("attach_rejected")
 				env.FaultYield("op")
 				nontrivial = true
+			}
+		case "fork":
+			// a copy of the Bus value is a second bus: what is attached to the copy must not
+			// change the routing of the original (checked by every later op against the model)
+			dev := int(op.Arg(0))
+			if dev < 0 || dev >= ndev {
+				dev = 0
+			}
+			s, e := uint32(op.Arg(1))&0xFFFFF0, uint32(op.Arg(2))&0xFFFFFF|0xF
+			if e < s {
+				continue
+			}
+			shadow := new(bus.Bus)
+			*shadow = *b
+			if p, pv := sim.RecoverLib(func() { _ = shadow.Attach(devs[dev], "shadow", s, e) }); p {
+				return &sim.Violation{Oracle: "attach_panic", Step: i, Msg: "Attach on a copy of the bus: " + sim.PanicString(pv)}
+			}
+			st.Probe("bus_value_copied")
+			// spot check right away at the edges of the range attached to the copy
+			for _, a := range []uint32{s, e} {
+				own := owner[a>>4]
+				clearLogs()
+				var got byte
+				p, _ := sim.RecoverLib(func() { got = b.EaRead(a) })
+				if own < 0 {
+					if !p {
+						return &sim.Violation{Oracle: "hole_not_loud", Step: i, Msg: fmt.Sprintf("after an Attach on a COPY of the bus, the original answers at %06x, which was never attached to it (returned %02x)", a, got)}
+					}
+					continue
+				}
+				if p || got != peek(own, a) {
+					return &sim.Violation{Oracle: "routing", Step: i, Msg: fmt.Sprintf("after an Attach on a COPY of the bus, a read of the original at %06x (owner %d) gives %02x, want %02x", a, own, got, peek(own, a))}
+				}
 			}
 		case "read", "write":
 			a := uint32(op.Arg(0))
@@ -236,7 +327,7 @@ func (c13) Exec(sc *sim.Scenario, env *sim.Env) *sim.Violation {
 			own := owner[a>>4]
 			var want byte
 			if own >= 0 {
-				want = devs[own].Peek(a)
+				want = peek(own, a)
 			}
 			var got byte
 			p, pv := sim.RecoverLib(func() {
@@ -262,6 +353,27 @@ func (c13) Exec(sc *sim.Scenario, env *sim.Env) *sim.Violation {
 			}
 			if p {
 				return &sim.Violation{Oracle: "access_panic", Step: i, Msg: fmt.Sprintf("%s at attached address %06x (device %d) panicked: %s", op.K, a, own, sim.PanicString(pv))}
+			}
+			if useReal[a>>4] {
+				// the library's own memory: no access log, the stored bytes are the witness
+				if logLen() != 0 {
+					return &sim.Violation{Oracle: "routing", Step: i, Msg: fmt.Sprintf("%s at %06x belongs to device %d (a memory.RAM/ROM) but a simulated device was called", op.K, a, own)}
+				}
+				rd := reals[own]
+				if op.K == "read" && got != want {
+					return &sim.Violation{Oracle: "read_value", Step: i, Msg: fmt.Sprintf("EaRead(%06x) returned %02x, device %d (memory.RAM/ROM) holds %02x", a, got, own, want)}
+				}
+				if op.K == "write" {
+					wantAfter := val
+					if rd.rom {
+						wantAfter = want // memory.ROM ignores writes
+					}
+					if rd.data[a-rd.offset] != wantAfter {
+						return &sim.Violation{Oracle: "write_value", Step: i, Msg: fmt.Sprintf("EaWrite(%06x,%02x): device %d now holds %02x there", a, val, own, rd.data[a-rd.offset])}
+					}
+				}
+				env.OpDone()
+				continue
 			}
 			if logLen() != 1 || len(devs[own].Log) != 1 {
 				var who []int
@@ -297,7 +409,7 @@ func (c13) Exec(sc *sim.Scenario, env *sim.Env) *sim.Violation {
 				if own < 0 {
 					hole = true
 				} else {
-					want |= uint32(devs[own].Peek(a+k)) << (8 * k)
+					want |= uint32(peek(own, a+k)) << (8 * k)
 				}
 			}
 			var got uint32
@@ -321,7 +433,7 @@ func (c13) Exec(sc *sim.Scenario, env *sim.Env) *sim.Violation {
 			}
 			for _, d := range devs {
 				for _, ev := range d.Log {
-					if ev.Write || ev.Addr < a || ev.Addr > a+2 || owner[ev.Addr>>4] != int8(d.ID) {
+					if ev.Write || ev.Addr < a || ev.Addr > a+2 || owner[ev.Addr>>4] != int8(d.ID) || useReal[ev.Addr>>4] {
 						return &sim.Violation{Oracle: "routing", Step: i, Msg: fmt.Sprintf("24-bit read at %06x accessed device %d at %06x (owner of that address: %d)", a, d.ID, ev.Addr, owner[ev.Addr>>4])}
 					}
 				}
@@ -347,7 +459,7 @@ func (c13) Exec(sc *sim.Scenario, env *sim.Env) *sim.Violation {
 				a := s + uint32(j)
 				own := owner[a>>4]
 				if own >= 0 {
-					want[j] = devs[own].Peek(a)
+					want[j] = peek(own, a)
 					attachedAny = true
 				} else {
 					want[j] = 0x5A
@@ -389,7 +501,7 @@ func (c13) Exec(sc *sim.Scenario, env *sim.Env) *sim.Violation {
 			}
 			for _, d := range devs {
 				for _, ev := range d.Log {
-					if ev.Write || ev.Addr < s || ev.Addr > e || owner[ev.Addr>>4] != int8(d.ID) {
+					if ev.Write || ev.Addr < s || ev.Addr > e || owner[ev.Addr>>4] != int8(d.ID) || useReal[ev.Addr>>4] {
 						return &sim.Violation{Oracle: "dump_device_call", Step: i, Msg: fmt.Sprintf("EaDump(%06x,%06x) made a %v access to device %d at %06x (owner of that address: %d)", s, e, map[bool]string{true: "write", false: "read"}[ev.Write], d.ID, ev.Addr, owner[ev.Addr>>4])}
 					}
 				}
